@@ -13,5 +13,7 @@ BuildGroups == { {"includes", "headers"},
                  {"defines", "headers"}, {"compiler", "compiler_flags"}, {"okl", "source"} }
 \* quick design run: every pair of inputs (all nine value combinations of the two)
 PairGroups == {g \in SUBSET AllProps : Cardinality(g) = 2}
+\* every routed property on its own
+SingleGroups == {{p} : p \in AllProps \ {"source"}}
 BothModes == {"Serial", "OpenMP"}
 =============================================================================
